@@ -228,7 +228,7 @@ def decide(pid, tier, seed):
         for e in inventory.new_entry_points(pid, REPO, cfg, props):
             inv.undecided.append(f"new entry point without a contract: {e} (not in inventory.json; the per-operation argument for {pid} does not cover it)")
         for e in inventory.modified_uncontracted(pid, REPO, cfg, props):
-            inv.undecided.append(f"a function under no contract was modified: {e} (its text differs from inventory.json; nothing is proved about it, so {pid} cannot be answered 'holds' for this tree)")
+            inv.undecided.append(f"code under no contract was modified: {e} (its text differs from inventory.json; nothing is proved about it, so {pid} cannot be answered 'holds' for this tree)")
         for e in inventory.changed_outside_own_units(pid, REPO, cfg, props):
             inv.undecided.append(f"a function of a file {pid} is anchored in was modified, and none of {pid}'s own units has it under contract: {e} (other properties' checks may judge the change; this one cannot answer 'holds')")
         inv.cmd = "lib/inventory.py: entry points of the files read by this property's units vs. inventory.json"
